@@ -99,6 +99,7 @@ let () =
       | ["NEWPEER"] -> st := Some prs0
       | "L" :: _ -> print_endline "LIVE"
       | ["X"] -> print_endline "-"
+      | ["TW"] -> print_endline "OK"      (* waiting for the tx fetcher's timer: not modelled *)
       | "BF" :: _ -> print_endline "OK"   (* concurrency/timing: not modelled (Open.v item 1) *)
       | ["S"] ->
         (match !st with
